@@ -10,7 +10,7 @@ import pandas as pd
 from .. import proto
 from .. import redoracle as ro
 from ..core import Check, Problem, register
-from ..learners import RECORDS, ExactLearner, hypotheses
+from ..learners import RECORDS, ExactLearner, NestedExactLearner, hypotheses
 
 import logging
 logging.getLogger("fairlearn").setLevel(logging.ERROR)
@@ -182,6 +182,11 @@ def has_history(case):
         return False
     import random as _r
     return _r.Random(json.dumps(case, sort_keys=True, default=str)).random() < 0.3
+
+
+def nested_learner(case):
+    import random as _r
+    return case.get("kind") != "gen" and _r.Random("nested" + json.dumps(case, sort_keys=True, default=str)).random() < 0.3
 
 
 def aux_data(X, y, sf):
@@ -447,7 +452,9 @@ class CHECK(Check):
             probe.load_data(X, y, sensitive_features=sf)
             keys = [idx_key(t) for t in probe.index]
             grid_offset = pd.Series([float(v) for v in offset_of(case, keys)], index=probe.index)
-        gs = red.GridSearch(ExactLearner(case["kind"], tag), moment, constraint_weight=float(F(case["cw"])),
+        # in ~30 % of the cases the learner keeps its fitted state in a nested mutable object (like a Pipeline's steps)
+        learner = NestedExactLearner(case["kind"], tag) if nested_learner(case) else ExactLearner(case["kind"], tag)
+        gs = red.GridSearch(learner, moment, constraint_weight=float(F(case["cw"])),
                             grid_size=case["grid_size"], grid_limit=float(F(case["grid_limit"])), grid_offset=grid_offset)
         if has_history(case):
             # the same GridSearch (and the same constraints object) had a previous life: fit on other data + a prediction.
@@ -820,6 +827,7 @@ class CHECK(Check):
                 tags.append("gen.exc=" + o["exc"])
             return (repr(sorted(case.items())), gsz >= 2, tags)
         tags = ["history=refit-after-a-previous-life" if has_history(case) else "history=fresh",
+                "learner=nested-state" if nested_learner(case) else "learner=flat",
                 f"moment={case['moment']}", f"rows={len(case['x'])}", f"groups={len(set(case['g']))}",
                 f"values={len(set(case['x']))}", f"kind={case['kind']}", f"container={case.get('container')}",
                 "bound=ratio" if case.get("ratio") else "bound=diff",
